@@ -10,6 +10,7 @@ import RedisGoModel.Driver.Rendezvous
 import RedisGoModel.Driver.Ready
 import RedisGoModel.Driver.Multi
 import RedisGoModel.Driver.PsTrace
+import RedisGoModel.Driver.Config
 /-! Correspondence driver: reads one observed operation per line on stdin, recomputes it with the model, prints
     `MISMATCH <lineno> <detail>` for every disagreement and a final `SUMMARY` line.  Each engine recognises its own line tags. -/
 open Driver
@@ -46,7 +47,7 @@ def judge (st : St) (fs : List String) : St × Option (Except String Bool) :=
   let (mz', v) := multiLine st.mz fs
   let st := { st with mz := mz' }
   if v.isSome then (st, v) else
-  (st, ((((readyLine fs).orElse fun _ => codecLine fs).orElse fun _ => globLine fs).orElse fun _ => psTraceLine fs).orElse fun _ => parserLine fs)
+  (st, (((((readyLine fs).orElse fun _ => configLine fs).orElse fun _ => codecLine fs).orElse fun _ => globLine fs).orElse fun _ => psTraceLine fs).orElse fun _ => parserLine fs)
 
 partial def loop (h : IO.FS.Stream) (st : St) : IO St := do
   let line ← h.getLine
